@@ -64,7 +64,7 @@ def run(ctx):
         "format universe: concatenations that are unambiguous in the documented grammar (text after a field starts with a separator, a lone '$' is followed by a separator or the end)",
     ]
     cases = os.path.join(ctx.tmp, "c20.cases")
-    g = ctx.tlc("AccessLog_MC", cfg_text=CFG % dict(deep=ctx.pick("MCDeepQuick", "MCDeepSmall"), events=ctx.pick("MCEventsQuick", "MCEvents")),
+    g = ctx.tlc("AccessLog_MC", cfg_text=CFG % dict(deep=ctx.pick("MCDeepQuick", "MCDeepSmall"), events=ctx.pick("MCEventsQuick", "MCEventsAll")),
                 workers=ctx.pick(4, 8), json_sink=cases, coverage=ctx.thorough, timeout=ctx.pick(200, 1200))
     ctx.log("AccessLog: %d states, %d distinct, %.0fs" % (g.generated, g.distinct, g.wall))
     if not ctx.need_tlc_ok(g, "AccessLog MC/Gen"):
